@@ -326,6 +326,15 @@ func genC14(t *rapid.T) (*C14Config, []string) {
 			c.Sels = append(c.Sels, rapid.SampledFrom([]string{"$", "$.a", "$[0]", "$.items", "$.missing", "[$, 1]", "{k: $}"}).Draw(t, "sel"))
 		}
 	}
+	// one physical line of the program text longer than 64 KiB (a comment, or a long string)
+	if rapid.IntRange(0, 11).Draw(t, "longline") == 0 {
+		if rapid.Bool().Draw(t, "longcomment") {
+			c.Prog = ast.BS("# " + strings.Repeat("x", 70000) + "\n" + string(c.Prog))
+		} else {
+			c.Prog = ast.BS("BEGIN { c14long = \"" + strings.Repeat("y", 70000) + "\" }\n" + string(c.Prog) + "\nEND { print c14long.length() }\n")
+		}
+		labels = append(labels, "line-longer-than-64KiB")
+	}
 	// a selector over more than $: the file name, a global the program sets in BEGIN
 	if len(c.Sels) == 0 && !c.HasBFEF && rapid.IntRange(0, 9).Draw(t, "selnames") == 0 {
 		c.Sels = []string{rapid.SampledFrom([]string{"$file", "[$, $file]", "c14g", "{k: c14g, v: $}"}).Draw(t, "namedsel")}
@@ -383,7 +392,7 @@ func genC14(t *rapid.T) (*C14Config, []string) {
 
 func TestC14(t *testing.T) {
 	rec := start(t, "C14", "exploration",
-		"configurations: program given inline or with -f FILE x input on stdin / one named file / 2-3 named files (also the same path twice) / a missing file / a directory among them x 0-2 -r selectors x -o absent / - / a path (new, or already existing with longer content) / a path in a missing directory / /dev/full (creatable, every write fails); one input in eight is not clean JSON text (byte order mark, NUL, surrounding whitespace, trailing garbage, truncated, empty, CRLF); programs and inputs from the C02 / C09 / C07 / C11 generators, including runs ending in each error kind, and degenerate program texts (empty, blank, comment only, empty rules, a bare pattern); each configuration is materialised in a private directory. Oracles: (1) stdout of the binary = stdout of lang.EvalProgram (+ GetRootJson text for -o -), exit status 0 iff the library returned nil and -o could be satisfied, otherwise 1 with a diagnostic; (2) -f == inline; (3) stdin == the same bytes in a named file for programs not printing $file; (4) -o FILE bytes == what -o - prints after the program's own output; (5) file and selector order through the $file / $ traces of the C02 programs; (6) -r E P == BEGINFILE { $ = E } P for one selector and programs without BEGINFILE / ENDFILE rules; (7) missing input, directory input, -o with several inputs, unwritable -o path: non-zero status and a diagnostic, never a stack trace. Non-trivial: >= 2 of {-f, >= 2 files, >= 1 selector, -o} or an error path. distinct = distinct configuration.")
+		"configurations: program given inline or with -f FILE x input on stdin / one named file / 2-3 named files (also the same path twice) / a missing file / a directory among them x 0-2 -r selectors x -o absent / - / a path (new, or already existing with longer content) / a path in a missing directory / /dev/full (creatable, every write fails); one input in eight is not clean JSON text (byte order mark, NUL, surrounding whitespace, trailing garbage, truncated, empty, CRLF); programs and inputs from the C02 / C09 / C07 / C11 generators, including runs ending in each error kind, degenerate program texts (empty, blank, comment only, empty rules, a bare pattern), and program texts with one line longer than 64 KiB; each configuration is materialised in a private directory. Oracles: (1) stdout of the binary = stdout of lang.EvalProgram (+ GetRootJson text for -o -), exit status 0 iff the library returned nil and -o could be satisfied, otherwise 1 with a diagnostic; (2) -f == inline; (3) stdin == the same bytes in a named file for programs not printing $file; (4) -o FILE bytes == what -o - prints after the program's own output; (5) file and selector order through the $file / $ traces of the C02 programs; (6) -r E P == BEGINFILE { $ = E } P for one selector and programs without BEGINFILE / ENDFILE rules; (7) missing input, directory input, -o with several inputs, unwritable -o path: non-zero status and a diagnostic, never a stack trace. Non-trivial: >= 2 of {-f, >= 2 files, >= 1 selector, -o} or an error path. distinct = distinct configuration.")
 	defer rec.Finish()
 	rec.Assume("the library interpreter (lang.EvalProgram + GetRootJson) is the reference for what the binary must print; its own correctness is the subject of the other properties")
 	rec.Replayer("config", func(raw json.RawMessage) error {
